@@ -4,7 +4,7 @@
 Extracted with Python's ast, fail closed (anything outside the subset => exit 1, nothing written):
   * ford/fortran_project.py: the module-level dict literal LINK_TYPES (string keys and values, source order)
     and the shape of Project.find that gives it meaning (LINK_TYPES[entity.lower()] / chain over
-    LINK_TYPES.values())
+    the de-duplicated LINK_TYPES.values(), the collections whose name does not start with "ext" first)
   * ford/sourceform.py: the module-level dict literal SUBLINK_TYPES, and FortranBase.children:
     the attribute names handed to self.iterator(...) in order and the list non_list_children;
     the module-level dict literal SCOPE_LINK_TYPES (kind word -> tuple of attribute names) and the shape of
@@ -164,7 +164,9 @@ def check_find(tree):
         refuse("fortran_project.py: Project.find not found exactly once")
     src = ast.unparse(fns[0])
     for needle in ["getattr(self, LINK_TYPES[entity.lower()])",
-                   "chain(*(getattr(self, collection) for collection in LINK_TYPES.values()))",
+                   "names = list(dict.fromkeys(LINK_TYPES.values()))",
+                   "collection = chain(*(getattr(self, name) for name in names if not name.startswith('ext')), "
+                   "*(getattr(self, name) for name in names if name.startswith('ext')))",
                    "_find_in_list(collection, name)", "item.find_child(child_name, child_entity)"]:
         if needle not in src:
             refuse(f"Project.find no longer contains `{needle}`")
